@@ -639,4 +639,15 @@ mod tests {
 #[allow(missing_docs, unused_imports, dead_code, clippy::all, clippy::pedantic, clippy::nursery)]
 pub mod verif_hooks {
     use super::*;
+
+    /// `escape_filename` on raw name bytes
+    #[cfg(not(windows))]
+    pub fn escape(name: &[u8]) -> String {
+        escape_filename(OsStr::from_bytes(name))
+    }
+    /// `unescape_filename`; `None` = error
+    #[cfg(not(windows))]
+    pub fn unescape(s: &str) -> Option<Vec<u8>> {
+        unescape_filename(s).ok().map(|n| n.as_bytes().to_vec())
+    }
 }
